@@ -146,7 +146,7 @@ private def parseStmt : Nat → List Char → Option (Stmt String × List Char)
     | _ => none
 end
 
-private def parseBody (s : String) : Option (List (Stmt String)) :=
+def parseNamesBody (s : String) : Option (List (Stmt String)) :=
   if s = "-" then some [] else
   match parseStmts (2 * s.length + 4) s.toList with
   | some (ss, []) => some ss
@@ -188,7 +188,7 @@ private def parseType (s : String) : Option (TypeD String) :=
 private def parseFiles : List String → Option (List (FileD String))
   | [] => some []
   | d :: ty :: i :: p :: t :: rest =>
-    match (splitC ty).mapM parseType, (splitC i).mapM parseImport, parseBody p, parseBody t, parseFiles rest with
+    match (splitC ty).mapM parseType, (splitC i).mapM parseImport, parseNamesBody p, parseNamesBody t, parseFiles rest with
     | some tys, some imps, some pb, some tb, some fs =>
       some ({ decls := splitC d, types := tys, imports := imps, probe := pb, top := tb } :: fs)
     | _, _, _, _, _ => none
